@@ -990,6 +990,89 @@ func (m *MW) StepCheckstate() {
 	})
 }
 
+// StepCheckTwoPending: ONE state check names proofs of two melts that are in flight, after one or
+// both payments reached their outcome - the request that resolves them must answer with the states
+// after resolution. gonuts walks the pending quotes of such a request in Go map order, one Lightning
+// look-up each; the request is therefore made inline by the driver (no scheduling points, no event
+// per seam), where both orders give the same log and - on a correct mint - the same answer.
+func (m *MW) StepCheckTwoPending() {
+	mint := m.pickMint()
+	inflight := func() []*PendingMelt {
+		var out []*PendingMelt
+		for _, x := range m.Pending {
+			if pay := m.W.LN.Payments[x.Key]; x.Known && x.Mint == mint && pay != nil && pay.Truth == ptInflight {
+				unknown := false
+				for _, p := range x.Ins {
+					unknown = unknown || m.Unknown[p.Secret]
+				}
+				if !unknown {
+					out = append(out, x)
+				}
+			}
+		}
+		return out
+	}
+	for tries := 0; len(inflight()) < 2 && tries < 3; tries++ {
+		m.W.LN.ForceNextPay = "pending"
+		m.StepMelt()
+		m.W.LN.ForceNextPay = ""
+	}
+	pms := inflight()
+	if len(pms) < 2 {
+		return
+	}
+	pms = pms[len(pms)-2:]
+	// outcomes: 0 failed, 1 succeeded, 2 still in flight; at least one of the two is final
+	o := [2]int{m.T.Choose("c2p.o0", 3), m.T.Choose("c2p.o1", 3)}
+	if o[0] == 2 && o[1] == 2 {
+		o[m.T.Choose("c2p.which", 2)] = 0
+	}
+	m.rc.Op(fmt.Sprintf("checkstate-two-pending outcomes=%v", o))
+	want := map[string]string{}
+	for i, pm := range pms {
+		switch o[i] {
+		case 0:
+			m.W.LN.ResolveInflight(pm.Key, false)
+		case 1:
+			m.W.LN.ResolveInflight(pm.Key, true)
+		}
+		for _, p := range pm.Ins {
+			want[p.Y()] = []string{"UNSPENT", "SPENT", "PENDING"}[o[i]]
+		}
+	}
+	var Ys []string
+	for _, pm := range pms {
+		for _, p := range pm.Ins {
+			Ys = append(Ys, p.Y())
+		}
+	}
+	// any order of the Ys
+	for i := len(Ys) - 1; i > 0; i-- {
+		j := m.T.Choose("c2p.shuffle", i+1)
+		Ys[i], Ys[j] = Ys[j], Ys[i]
+	}
+	var r *Resp
+	m.rc.Quietly(func() { r = m.User.CheckState(mint, Ys) })
+	m.rc.S.Probe("c15_checkstate_two_pending")
+	if r != nil && r.OK() && !m.Faulted {
+		states, _ := r.Body["states"].([]any)
+		for i, sv := range states {
+			if i >= len(Ys) {
+				break
+			}
+			sm, _ := sv.(map[string]any)
+			st, _ := sm["state"].(string)
+			if st != want[Ys[i]] {
+				m.W.Book.Violate("C15.state_wrong", "two-pending|"+want[Ys[i]]+"->"+st,
+					"a state check naming proofs of two pending melts (outcomes %v: 0 failed, 1 succeeded, 2 in flight) reports %s for Y %s, which is %s once the request has looked at the payments", o, st, short(Ys[i]), want[Ys[i]])
+			}
+			m.rc.S.Probe("c15_state_compared")
+		}
+	}
+	m.settlePending()
+	m.rc.Nontrivial = true
+}
+
 // verifyStates: the harness's own expectation for proofs whose state it knows exactly.
 func (m *MW) verifyStates(mint string, Ys []string, r *Resp) {
 	states, _ := r.Body["states"].([]any)
